@@ -214,7 +214,7 @@ func (s asciiString) ToInteger() int64 {
 	if err != nil {
 		f, err := s._toFloat(ss)
 		if err == nil {
-			return int64(f)
+			return floatToIntClip(f) // int64(f) is not defined beyond the range ("1e300" gave MinInt64)
 		}
 	}
 	return i
